@@ -24,6 +24,15 @@ type vtFakeLight struct {
 	calls                 []string
 }
 
+// wait: the member named "waiter" only returns once the context it was given is cancelled.
+func (f *vtFakeLight) wait(ctx context.Context, name string) error {
+	if name != "waiter" {
+		return nil
+	}
+	<-ctx.Done()
+	return ctx.Err()
+}
+
 func (f *vtFakeLight) record(method, name string) bool {
 	f.mu.Lock()
 	defer f.mu.Unlock()
@@ -32,6 +41,9 @@ func (f *vtFakeLight) record(method, name string) bool {
 }
 
 func (f *vtFakeLight) GetBrightness(ctx context.Context, in *traits.GetBrightnessRequest, opts ...grpc.CallOption) (*traits.Brightness, error) {
+	if err := f.wait(ctx, in.Name); err != nil {
+		return nil, err
+	}
 	if f.record("get", in.Name) {
 		return nil, status.Error(codes.Unavailable, "member down")
 	}
@@ -39,6 +51,9 @@ func (f *vtFakeLight) GetBrightness(ctx context.Context, in *traits.GetBrightnes
 }
 
 func (f *vtFakeLight) UpdateBrightness(ctx context.Context, in *traits.UpdateBrightnessRequest, opts ...grpc.CallOption) (*traits.Brightness, error) {
+	if err := f.wait(ctx, in.Name); err != nil {
+		return nil, err
+	}
 	if f.record("update", in.Name) {
 		return nil, status.Error(codes.Unavailable, "member down")
 	}
@@ -107,5 +122,21 @@ func VT_C17_LightGroup() {
 	}
 	vt.Assert(len(fake.calls) <= n, "no-call-outside-the-members-or-with-another-method")
 	fake.mu.Unlock()
+	vt.Reach("done")
+}
+
+// Once the outcome is decided (a failure under All) the remaining member's context is cancelled: the group call returns
+// although that member only ever returns on cancellation, and nothing is left running.
+func VT_C17_LightGroupCancels() {
+	fake := &vtFakeLight{fail: map[string]bool{"m0": true}}
+	g := NewGroup(fake, "m0", "waiter")
+	var err error
+	if vt.Choose("op", 2) == 0 {
+		_, err = g.GetBrightness(context.Background(), &traits.GetBrightnessRequest{Name: "group"})
+	} else {
+		_, err = g.UpdateBrightness(context.Background(), &traits.UpdateBrightnessRequest{Name: "group", Brightness: &traits.Brightness{}})
+	}
+	vt.Assert(err != nil, "decided-failure-is-reported")
+	vt.NoLeak()
 	vt.Reach("done")
 }
